@@ -193,6 +193,15 @@ class C12(Prop):
         ksteps = [f[6] for f in tkills]
         # a worker or the root killed in the same run explains pool-level failures; OSErrors it does not
         other = [f for f in X.injected_kills(res) if res.kernel.procs[f[1]].role != "tracker"]
+        # a process of the tree that was alive when the tracker was killed and then ended abnormally by itself had a
+        # tracked operation in flight (e.g. the import-time operation of its re-imported main module, during start-up):
+        # its death explains pool-level failures as well
+        victims = {f[1] for f in X.injected_kills(res)}
+        for p in res.kernel.procs.values():
+            if p.role in ("worker", "child") and p.pid not in victims and p.status not in (None, ("exit", 0)) \
+                    and any(getattr(p, "exec_step", 0) <= ks <= (p.death_step if p.death_step is not None else ks)
+                            for ks in ksteps):
+                other.append(("self-crash", p.pid))
 
         def failures(v):
             if isinstance(v, dict):
